@@ -373,12 +373,18 @@ def run_config(ctx, rep, cfg):
     return npar, nvec
 
 
+from . import affine_rules
+
+
 def run(ctx, rep):
     rep.assume("not decided: that the vector round functions compute the same values as the scalar ones",
                "lane analysis runs on clang's -O3 IR (helpers inlined); a may-dependency over-approximation: no false 'independent'")
     for cfg in ctx.configs():
         npar, nvec = run_config(ctx, rep, cfg)
+        nlay = affine_rules.check_layout(ctx, rep, cfg)
+        affine_rules.check_siblings(ctx, rep, cfg, rule="C07.R6", only=lambda f: "parallel" in f.name)
         if cfg is None:
+            rep.floor("C07.R6", "block functions with input/output layout decided", nlay, 6)
             rep.floor("C07.R1", "public parallel processing functions", npar, 5)
             rep.floor("C07.R3", "vector ECB functions analysed lane-wise", nvec, 5)
         else:
